@@ -1096,3 +1096,176 @@ theorem node_release (t : Topo) (ho : t.handOver = true) (wo wi : WId) (r : RId)
       · exact h1 st hst
 
 end Uniflow.TeardownProofs
+
+/-! ### The same lifting for an arbitrary predicate on the component steps
+
+`Internal` are the component steps the node loops, the sinks and the teardown actions perform on
+their own (a write, an answer, a close, the consumer's receive); a system step that is a bare
+component step (`prim`) performs that step.  For every `Q` that holds of the internal steps: if
+every `prim` step of a history satisfies `Q`, every component evolves by `Q`-steps only. -/
+
+namespace Uniflow.TeardownProofs
+open Uniflow Uniflow.Writer Uniflow.Teardown Uniflow.WriterProofs
+
+def Internal : CStep → Prop
+  | .recv => True
+  | .w (.write _) => True
+  | .w (.answer _ _) => True
+  | .w (.closeR _) => True
+  | .w .closeW => True
+  | _ => False
+
+def StepQ (Q : WId → CStep → Prop) : Teardown.Step → Prop
+  | .prim w c => Q w c
+  | _ => True
+
+def RunQ (Q : WId → CStep → Prop) (h : List Teardown.Step) : Prop := ∀ st ∈ h, StepQ Q st
+
+/-- `c'` is reached from `c` by component steps that all satisfy `Q`. -/
+def EvolvesQ (rule : Pump.Rule) (Q : CStep → Prop) (c c' : Comp) : Prop := ∃ cs, (∀ x ∈ cs, Q x) ∧ c' = runC rule c cs
+
+theorem EvolvesQ.refl (rule : Pump.Rule) (Q : CStep → Prop) (c : Comp) : EvolvesQ rule Q c c := ⟨[], by simp, rfl⟩
+
+theorem EvolvesQ.trans {rule : Pump.Rule} {Q : CStep → Prop} {a b c : Comp} (h1 : EvolvesQ rule Q a b) (h2 : EvolvesQ rule Q b c) : EvolvesQ rule Q a c := by
+  obtain ⟨cs1, n1, e1⟩ := h1
+  obtain ⟨cs2, n2, e2⟩ := h2
+  refine ⟨cs1 ++ cs2, ?_, by rw [runC_append, ← e1, e2]⟩
+  intro x hx
+  rcases List.mem_append.1 hx with hx | hx
+  · exact n1 x hx
+  · exact n2 x hx
+
+/-- System-level evolution: every component evolves, and the ones outside `fp` are untouched. -/
+def SysEvolvesQ (rule : Pump.Rule) (Q : WId → CStep → Prop) (fp : List WId) (s s' : Sys) : Prop :=
+  (∀ x, EvolvesQ rule (Q x) (s.comp x) (s'.comp x)) ∧ (∀ x, x ∉ fp → s'.comp x = s.comp x)
+
+theorem SysEvolvesQ.refl (rule : Pump.Rule) (Q : WId → CStep → Prop) (fp : List WId) (s : Sys) : SysEvolvesQ rule Q fp s s :=
+  ⟨fun x => EvolvesQ.refl rule _ _, fun _ _ => rfl⟩
+
+theorem SysEvolvesQ.trans {rule : Pump.Rule} {Q : WId → CStep → Prop} {fp : List WId} {a b c : Sys}
+    (h1 : SysEvolvesQ rule Q fp a b) (h2 : SysEvolvesQ rule Q fp b c) : SysEvolvesQ rule Q fp a c :=
+  ⟨fun x => (h1.1 x).trans (h2.1 x), fun x hx => by rw [h2.2 x hx, h1.2 x hx]⟩
+
+theorem SysEvolvesQ.mono {rule : Pump.Rule} {Q : WId → CStep → Prop} {fp fp' : List WId} {a b : Sys}
+    (h : SysEvolvesQ rule Q fp a b) (hsub : ∀ x ∈ fp, x ∈ fp') : SysEvolvesQ rule Q fp' a b :=
+  ⟨h.1, fun x hx => h.2 x (fun hin => hx (hsub x hin))⟩
+
+theorem prim_evolvesQ (rule : Pump.Rule) (Q : WId → CStep → Prop) (hQ : ∀ w x, Internal x → Q w x) (t : Topo) (s : Sys) (w : WId) (c : CStep) (hc : Q w c) :
+    SysEvolvesQ rule Q [w] s (applyPrim rule t s w c).1 := by
+  constructor
+  · intro x
+    rw [applyPrim_comp]
+    split
+    · rename_i hx; subst hx
+      exact ⟨[c], by intro y hy; simp only [List.mem_singleton] at hy; subst hy; exact hc, rfl⟩
+    · exact EvolvesQ.refl rule _ _
+  · intro x hx
+    rw [applyPrim_comp]
+    simp only [List.mem_singleton] at hx
+    simp [hx]
+
+theorem flushReads_evolvesQ (rule : Pump.Rule) (Q : WId → CStep → Prop) (hQ : ∀ w x, Internal x → Q w x) (t : Topo) (w : WId) (r : RId) (s : Sys) (l : List (Nat × Option Ans)) :
+    SysEvolvesQ rule Q [w] s (flushReads rule t w r s l).1 := by
+  induction l generalizing s with
+  | nil => simp only [flushReads]; exact SysEvolvesQ.refl rule _ _ s
+  | cons e rest ih =>
+    obtain ⟨v, oa⟩ := e
+    cases oa with
+    | none => simp only [flushReads]; exact SysEvolvesQ.refl rule _ _ s
+    | some a =>
+      simp only [flushReads]
+      exact (prim_evolvesQ rule Q hQ t s w (.w (.answer r a)) (hQ _ _ trivial)).trans (ih _)
+
+theorem closes_evolvesQ (rule : Pump.Rule) (Q : WId → CStep → Prop) (hQ : ∀ w x, Internal x → Q w x) (t : Topo) (s : Sys) (cl : List Close) :
+    SysEvolvesQ rule Q (cl.map closeTarget) s (applyCloses rule t s cl) := by
+  induction cl generalizing s with
+  | nil => exact SysEvolvesQ.refl rule _ _ s
+  | cons c rest ih =>
+    simp only [applyCloses, List.map_cons]
+    have h1 : SysEvolvesQ rule Q [closeTarget c] s (applyClose rule t s c) := by
+      cases c with
+      | reader w r => exact prim_evolvesQ rule Q hQ t s w _ (hQ _ _ trivial)
+      | writer w => exact prim_evolvesQ rule Q hQ t s w _ (hQ _ _ trivial)
+    exact (h1.mono (by simp)).trans ((ih _).mono (by intro x hx; simp [hx]))
+
+theorem step_evolvesQ (rule : Pump.Rule) (Q : WId → CStep → Prop) (hQ : ∀ w x, Internal x → Q w x) (t : Topo) (s : Sys) (st : Teardown.Step) (hs : StepQ Q st) :
+    SysEvolvesQ rule Q (footprint t s st) s (Teardown.step rule t s st).1 := by
+  cases st with
+  | prim w c => exact prim_evolvesQ rule Q hQ t s w c hs
+  | fwd w r =>
+    simp only [Teardown.step, footprint]
+    cases hl : t.listener w r with
+    | sink k => simp only; exact SysEvolvesQ.refl rule _ _ s
+    | node wo =>
+      cases hi : s.inbox w r with
+      | nil => simp only; exact SysEvolvesQ.refl rule _ _ s
+      | cons v rest =>
+        simp only
+        refine ⟨?_, ?_⟩ <;> simp only [setReads_comp]
+        · exact (((prim_evolvesQ rule Q hQ t _ wo (.w (.write v)) (hQ _ _ trivial)).mono (fp' := [w, wo]) (by simp)).trans
+            ((flushReads_evolvesQ rule Q hQ t w r _ _).mono (by simp))).1
+        · exact (((prim_evolvesQ rule Q hQ t _ wo (.w (.write v)) (hQ _ _ trivial)).mono (fp' := [w, wo]) (by simp)).trans
+            ((flushReads_evolvesQ rule Q hQ t w r _ _).mono (by simp))).2
+  | bwd wo =>
+    simp only [Teardown.step, footprint]
+    by_cases hdet : s.detached wo = true
+    · simp only [hdet, if_true]; exact SysEvolvesQ.refl rule _ _ s
+    have hdet' : s.detached wo = false := by simpa using hdet
+    simp only [hdet', Bool.false_eq_true, if_false]
+    cases hc : t.consumer wo with
+    | requester => simp only; exact SysEvolvesQ.refl rule _ _ s
+    | node wi r =>
+      simp only
+      cases hr : Pump.recv (s.comp wo).p with
+      | got a =>
+        simp only
+        refine ⟨?_, ?_⟩ <;> simp only [setReads_comp]
+        · exact (((prim_evolvesQ rule Q hQ t s wo .recv (hQ _ _ trivial)).mono (fp' := [wo, wi]) (by simp)).trans
+            ((flushReads_evolvesQ rule Q hQ t wi r _ _).mono (by simp))).1
+        · exact (((prim_evolvesQ rule Q hQ t s wo .recv (hQ _ _ trivial)).mono (fp' := [wo, wi]) (by simp)).trans
+            ((flushReads_evolvesQ rule Q hQ t wi r _ _).mono (by simp))).2
+      | closed =>
+        simp only
+        refine ⟨?_, ?_⟩ <;> simp only [setReads_comp]
+        · exact ((flushReads_evolvesQ rule Q hQ t wi r s _).mono (fp' := [wo, wi]) (by simp)).1
+        · exact ((flushReads_evolvesQ rule Q hQ t wi r s _).mono (fp' := [wo, wi]) (by simp)).2
+      | blocked => simp only; exact SysEvolvesQ.refl rule _ _ s
+  | fwdEnd w r =>
+    simp only [Teardown.step, footprint]
+    cases hl : t.listener w r with
+    | sink k => simp only; exact SysEvolvesQ.refl rule _ _ s
+    | node wo =>
+      simp only
+      split
+      · refine ⟨?_, ?_⟩ <;> simp only [setReads_comp]
+        · exact (flushReads_evolvesQ rule Q hQ t w r _ _).1
+        · exact (flushReads_evolvesQ rule Q hQ t w r _ _).2
+      · exact SysEvolvesQ.refl rule _ _ s
+  | sinkAnswer k a =>
+    simp only [Teardown.step, footprint]
+    cases hq : s.queue k with
+    | nil => simp only; exact SysEvolvesQ.refl rule _ _ s
+    | cons e rest =>
+      obtain ⟨w, r⟩ := e
+      simp only
+      exact prim_evolvesQ rule Q hQ t { s with queue := fun x => if x = k then rest else s.queue x } w (.w (.answer r a)) (hQ _ _ trivial)
+  | bwdLate wo =>
+    simp only [Teardown.step, footprint]
+    split
+    · exact SysEvolvesQ.refl rule _ _ s
+    · split
+      · exact ⟨fun x => EvolvesQ.refl rule _ _, fun _ _ => rfl⟩
+      · exact SysEvolvesQ.refl rule _ _ s
+  | down td => exact closes_evolvesQ rule Q hQ t s (closes t td)
+
+theorem run_evolvesQ (rule : Pump.Rule) (Q : WId → CStep → Prop) (hQ : ∀ w x, Internal x → Q w x) (t : Topo) (s : Sys) (h : List Teardown.Step) (hs : RunQ Q h) :
+    ∀ x, EvolvesQ rule (Q x) (s.comp x) ((Teardown.run rule t s h).comp x) := by
+  induction h generalizing s with
+  | nil => intro x; exact EvolvesQ.refl rule _ _
+  | cons st rest ih =>
+    intro x
+    simp only [Teardown.run]
+    exact ((step_evolvesQ rule Q hQ t s st (hs st (by simp))).1 x).trans (ih _ (fun y hy => hs y (by simp [hy])) x)
+
+
+end Uniflow.TeardownProofs
